@@ -11,8 +11,11 @@ def run(ctx):
         r = ctx.tlc_ok("SeiSyntax", "Sei_%s_%s.cfg" % (mode, t), workers=14, timeout=3000, heap="16g", stack="256m")
         cases += r.exported
     inp = ctx.write_ndjson("sei.ndjson", cases)
-    core.absorb(ctx, ctx.harness(["c17-replay", "-in", inp], timeout=3000))
-    ctx.cov["bounds"] = {"lists": "1..%d messages, types incl. >= 255, sizes incl. >= 255, payload classes filler/zeros/ends-00/emulation/ff" % (2 if q else 3),
+    s = core.absorb(ctx, ctx.harness(["c17-replay", "-in", inp], timeout=3000))
+    if s["extra"].get("nalu_parses_judged", 0) < 1000:
+        raise core.Machinery("only %d SEI NAL unit parses through avc / hevc ParseSEINalu judged" % s["extra"].get("nalu_parses_judged", 0))
+    ctx.cov["bounds"] = {"nal_unit_parsers": "%d message lists also parsed as a whole SEI NAL unit by avc.ParseSEINalu / hevc.ParseSEINalu and compared message by message" % s["extra"]["nalu_parses_judged"],
+                         "lists": "1..%d messages, types incl. >= 255, sizes incl. >= 255, payload classes filler/zeros/ends-00/emulation/ff" % (2 if q else 3),
                          "time_code": "0..%d clocks x all flag nestings x time offset lengths" % (2 if q else 3),
                          "pic_timing": "pict_struct 0..8 x cpb/dpb delays x clock flag nestings x time offset lengths, signed offsets",
                          "fixed": "137 and 144 over boundary values"}
